@@ -138,7 +138,11 @@ def impl(case):
     try:
         p = P(*_build_args(case["args"]))
         if k == "pmatmul":
-            p = (case["n"] @ p) if case.get("r") else (p @ case["n"])
+            n = case["n"]
+            if case.get("ntype") and n >= 0:
+                # an integral count in another numeric type is the integer it equals (as for n @ h)
+                n = {"f": float, "q": Fraction, "b": (lambda v: bool(v) if v in (0, 1) else v)}[case["ntype"]](n)
+            p = (n @ p) if case.get("r") else (p @ n)
     except ValueError:
         return "err ValueError"
     seq = _pool_out(p, enc)
@@ -350,4 +354,4 @@ def generate(rnd, tier, scale):
         elif r < 0.85:
             yield dict(k="pmk", args=_rand_args(rnd), salt=rnd.randint(0, 10**6))
         else:
-            yield dict(k="pmatmul", args=_rand_args(rnd), n=rnd.choice([-1, 0, 1, 2, 3]), r=rnd.random() < 0.5, salt=rnd.randint(0, 10**6))
+            yield dict(k="pmatmul", args=_rand_args(rnd), n=rnd.choice([-1, 0, 1, 2, 3]), r=rnd.random() < 0.5, salt=rnd.randint(0, 10**6), **({"ntype": rnd.choice(["f", "q", "b"])} if rnd.random() < 0.25 else {}))
